@@ -20,6 +20,8 @@ EXPLANATION = (
     '(shift identity max(a,b)+k = max(a+k,b+k)); (None, None) exactly on the orderings of '
     '{min, max, 0, S} without a common pixel; (R6) constructor guards and __eq__ over all four corners. '
     'Not decided: numpy integer overflow near 2^63.')
+EXPLANATION_ADDED = (' (R8) fixed-width integer limits: no method multiplies or squares limit-derived values (the may-be-integer dataflow of C01.R9 with the four limits as sources).')
+EXPLANATION += EXPLANATION_ADDED
 TRUSTED = ['builtin min/max/abs on integers', 'slice(a, b) selects a <= i < b for 0 <= a']
 ASSUMPTIONS = ['corners are exact integers']
 
